@@ -22,6 +22,28 @@ def gen(p, n, fail_at=None):
   return ('ret', p)
 
 
+class CursorSource:
+  """A shared input whose __next__ is NOT atomic: a read-modify-write cursor
+  with a scheduling point in between (a file-like reader, a generator that
+  blocks inside its body).  Only a lock around next() keeps it consistent."""
+
+  def __init__(self, p, n):
+    self.p, self.n, self.i = p, n, 0
+
+  def __iter__(self):
+    return self
+
+  def __next__(self):
+    i = self.i
+    s = sched._current
+    if s is not None and not s.aborting:
+      s.point('rd', 'cursor')
+    if i >= self.n:
+      raise StopIteration(('ret', self.p))
+    self.i = i + 1
+    return (self.p, i)
+
+
 def tenfold(it):
   """iter_fn used for piter_fn/piter: maps and forwards a return value."""
   n = 0
@@ -50,9 +72,9 @@ class ParHarness(explorer.Harness):
   max_steps = 12000
 
   def __init__(self, driver='multiplex', srcs=(2,), buf=0, workers=2, par=1,
-               stop=None, fail=None, fn=False, mode='preempt'):
+               stop=None, fail=None, fn=False, mode='preempt', src='gen'):
     self.params = dict(driver=driver, srcs=list(srcs), buf=buf, workers=workers,
-                       par=par, stop=stop, fail=fail, fn=fn, mode=mode)
+                       par=par, stop=stop, fail=fail, fn=fn, mode=mode, src=src)
     self.mode = mode
     qharness.prepare()
 
@@ -70,7 +92,8 @@ class ParHarness(explorer.Harness):
       out = []
       for i, n in enumerate(p['srcs']):
         fa = p['fail'][1] if p['fail'] and p['fail'][0] == i else None
-        out.append(gen(i, n, fa))
+        out.append(CursorSource(i, n) if p['src'] == 'cursor'
+                   else gen(i, n, fa))
       return out
 
     def consume(it, stop):
@@ -173,7 +196,8 @@ class ParHarness(explorer.Harness):
   def _cfg(self):
     p = self.params
     return (f'{p["driver"]}:S{len(p["srcs"])}:W{p["workers"]}:par{p["par"]}:'
-            f'buf{"0" if not p["buf"] else "N"}')
+            f'buf{"0" if not p["buf"] else "N"}'
+            f'{":non-atomic-source" if p["src"] == "cursor" else ""}')
 
   def what(self):
     p = self.params
